@@ -13,7 +13,9 @@ RULE = ("every candidate (ints within +-2 of +-2^31, 2^32, +-2^63, 2^64, 0, +-1,
         "with and without their own comparison) offered as key and as value through setitem, insert, setdefault, "
         "update (dict and pairs), constructor, add, set constructor, on Bucket/BTree/Set/TreeSet of every family, C and "
         "Python; after a rejection the container must be unchanged, after acceptance the entry must read back as the "
-        "representable value; lookups with unrepresentable keys must report absence; distinct by (family, kind, entry "
+        "representable value; the same offers as the FIRST write into an empty container (after a rejection it must still be a "
+        "sound empty container); overwriting an existing entry with a close but different value must store the new value; "
+        "lookups with unrepresentable keys must report absence; distinct by (family, kind, entry "
         "point, role, candidate); non-trivial = all")
 ASSUMPTIONS = ["float32 rounding expected from struct.pack('f') (IEEE round-to-nearest-even, overflow to inf)",
                "__setstate__ as an entry point is exercised in a separate stream (see known findings)"]
@@ -70,6 +72,8 @@ def candidates():
               3.4028234663852886e38, 3.4028235677973366e38, 3.5e38, 16777217.0, 1.0000001, 2.0 ** -149, 2.0 ** -150, 1e39):
         out.append(("float", x))
     out += [("str", "ab"), ("none", None), ("plain", Plain()), ("ordered", Ordered(3)), ("tuple", (1, 2)), ("list", [1])]
+    # text that LOOKS numeric is still not a number of the family's type
+    out += [("str", "1.5"), ("str", " 7 "), ("str", "12"), ("str", "nan"), ("str", "1_0"), ("bytes", b"2.5"), ("bytes", b"12")]
     for n in range(0, 9):
         out.append(("bytes", bytes(range(65, 65 + n))))
     return out
@@ -145,7 +149,7 @@ def run(ctx):
     fams = ALL_FAMS if not ctx.quick() else ALL_FAMS
     cands = candidates()
     terms = []
-    nrej = nacc = 0
+    nrej = nacc = nempty = nover = 0
     entry_counts = {}
     for fn in fams:
         f = fam(fn)
@@ -176,8 +180,10 @@ def run(ctx):
                                 continue
                         cls = f.cls(kind, impl)
                         setlike = kind in ("Set", "TreeSet")
+                        # a third of the offers are the FIRST write into an empty container
+                        empty_start = entry not in ("ctor-dict", "ctor-pairs", "set-ctor") and rng.random() < 0.34
                         try:
-                            t = cls([k1, k2]) if setlike else cls({k1: v1, k2: v1})
+                            t = cls() if empty_start else (cls([k1, k2]) if setlike else cls({k1: v1, k2: v1}))
                         except Exception as e:  # noqa
                             ctx.corr_mismatch("cannot preload", {"family": fn, "err": repr(e)})
                             continue
@@ -232,7 +238,7 @@ def run(ctx):
                                 try:
                                     if role == "key":
                                         keys = list(t) if setlike else list(t.keys())
-                                        if not any(same(x, want) for x in keys) or len(keys) != (3 if not any(same(want, b if setlike else b[0]) for b in before) else 2):
+                                        if not any(same(x, want) for x in keys) or len(keys) != len(before) + (1 if not any(same(want, b if setlike else b[0]) for b in before) else 0):
                                             bad = "key-reads-back-differently"
                                     else:
                                         g = t[knew]
@@ -245,10 +251,42 @@ def run(ctx):
                             bad = "raises-" + outcome
                             if not all(same(a, b) if setlike else (same(a[0], b[0]) and same(a[1], b[1])) for a, b in zip(before, after)) or len(before) != len(after):
                                 bad += "+modified"
+                        if bad is None and empty_start and outcome == "TypeError":
+                            bad = empty_damage(t, kind)
+                            nempty += 1
                         if bad:
                             ctx.oracle_failure("%s:%s:%s:%s:%s" % (impl, role, tc, kindc if kindc != "int" else ("int-in-range" if exp[0] != "reject" else "int-out-of-range"), bad),
                                                "%s%s/%s %s with %s %s=%r: %s (expected %s%s)" % (fn, kind, impl, entry, kindc, role, cv, bad, exp[0], "" if got is None else ", read back %r" % (got,)),
                                                {"family": fn, "kind": kind, "impl": impl, "entry": entry, "role": role, "candidate": repr(cv), "class": kindc})
+                # ---- overwriting an existing entry with a close but different value stores the new value
+                if f.vk in BOUNDS or f.vk == "F":
+                    if f.vk == "F":
+                        one_up = struct.unpack("f", struct.pack("I", struct.unpack("I", struct.pack("f", 1.0))[0] + 1))[0]
+                        pairs = [(0.0, 1e-7), (1e-8, 2e-8), (1e-8, -1e-8), (1e-30, 0.0), (1.0, one_up), (one_up, 1.0), (3.0, 3.0000002),
+                                 (1e10, 1.0000001e10), (0.5, -0.5), (2.0 ** -149, 0.0), (16777216.0, 16777218.0)]
+                    else:
+                        lo, hi = BOUNDS[f.vk]
+                        pairs = [(0, 1), (1, 0), (hi, hi - 1), (lo, lo + 1), (hi - 1, hi), (7, 8), (lo, hi), (hi, lo)]
+                    for a, b in pairs:
+                        for kind in ("Bucket", "BTree"):
+                            for entry in ("setitem", "update-dict", "update-pairs"):
+                                cls = f.cls(kind, impl)
+                                t = cls({k1: a, k2: a})
+                                if entry == "setitem":
+                                    t[k1] = b
+                                elif entry == "update-dict":
+                                    t.update({k1: b})
+                                else:
+                                    t.update([(k1, b)])
+                                nover += 1
+                                ctx.count((fn, impl, kind, "overwrite", entry, repr(a), repr(b)))
+                                want = f32(b) if f.vk == "F" else b
+                                # finding F8: the Python float families keep the double (reported by the main stream)
+                                okv = (t[k1] == want) or (impl == "Py" and f.vk == "F" and t[k1] == b)
+                                if not okv or t[k2] != (f32(a) if f.vk == "F" and impl == "C" else t[k2]):
+                                    ctx.oracle_failure("%s:value:%s:overwrite:new-value-not-stored" % (impl, f.vk),
+                                                       "%s%s/%s: %s of an existing key holding %r with %r reads back %r (expected %r)" % (fn, kind, impl, entry, a, b, t[k1], want),
+                                                       {"family": fn, "kind": kind, "impl": impl, "entry": entry, "old": repr(a), "new": repr(b)})
                 # ---- lookups with an unrepresentable key report absence
                 if f.kk != "O":
                     for kindc, cv in cands:
@@ -305,10 +343,33 @@ def run(ctx):
         ctx.corr_mismatch("c13 case file", e)
     for i in bad[:5]:
         ctx.corr_mismatch("Conv model vs implementation", {"case": terms[i]})
+    ctx.cov["rejected_first_writes_into_empty_containers"] = nempty
+    ctx.cov["overwrites_with_close_values"] = nover
     ctx.cov["accepted"] = nacc
     ctx.cov["rejected"] = nrej
     ctx.cov["entry_points"] = entry_counts
     ctx.sample({"family": "IF", "candidate": "0.1", "expected_readback": f32(0.1)})
+
+
+def empty_damage(t, kind):
+    """a container that rejected its first write must still be a sound EMPTY container"""
+    try:
+        if len(t) != 0 or t or list(t.keys()) != []:
+            return "empty-container-not-empty-after-rejected-first-write"
+        if kind in ("BTree", "TreeSet"):
+            if t.__getstate__() is not None:
+                return "empty-tree-has-state-after-rejected-first-write"
+            t._check()
+        try:
+            t.minKey()
+            return "minKey-of-empty-container-returns"
+        except (ValueError, IndexError):      # which of the two is C02's / C09's business (finding F41)
+            pass
+    except AssertionError as e:
+        return "check-fails-after-rejected-first-write"
+    except Exception as e:  # noqa
+        return "empty-container-raises-" + type(e).__name__
+    return None
 
 
 def replay(ctx, data):
